@@ -141,7 +141,7 @@ def render(x):
     if isinstance(x, Bool):
         return ('bool', str(z3.simplify(x.e)))
     if isinstance(x, AbsVec):
-        return ('absvec', str(x.tok), str(z3.simplify(x.n)))
+        return ('absvec', norm_tok(str(x.tok)), norm_tok(str(z3.simplify(x.n))))
     if isinstance(x, VecV):
         return ('vec', tuple(render(i) for i in x.items))
     if isinstance(x, Ref):
@@ -155,4 +155,14 @@ def render(x):
         return ('lazy', x.ty)
     if isinstance(x, Str):
         return ('str', str(z3.simplify(x.n)))
-    return str(x)
+    return norm_tok(str(x))
+
+
+_GEN = re.compile(r'\$(?:hvm|ahm):[^ ]*?\.\d+\.\d+(?=\.\d)|\$\d+(?=\.\d)')
+
+
+def norm_tok(t):
+    """cells rewritten by an abstracted callee carry a generation name ($hvm:<callee>.<k>.<arg>...); two functions that are compared
+    reach the same field of the same object through different generations (one of them calls the abstracted callee itself), so tokens
+    are compared by field path only"""
+    return _GEN.sub('$cell', t)
